@@ -241,6 +241,8 @@ class FinishedPdu(AbstractFileDirectiveBase):
         end_of_params = finished_pdu.pdu_file_directive.packet_len
         if finished_pdu.pdu_file_directive.pdu_conf.crc_flag == CrcFlag.WITH_CRC:
             end_of_params -= 2
+        if current_idx >= end_of_params:
+            raise BytesTooShortError(current_idx + 1, end_of_params)
         first_param_byte = data[current_idx]
         params = FinishedParams(
             condition_code=ConditionCode((first_param_byte & 0xF0) >> 4),
